@@ -246,6 +246,28 @@ func toSet(s []string) map[string]bool {
 	return m
 }
 
+// readerTakeover: whether the reader keeps the peer's compression context on this path: the result of
+// msgReader.flateContextTakeover when it is called, else the same decision spelled out on the path (the helper was
+// inlined or replaced by a function of the role and the options): client ↦ ¬serverNoContextTakeover, server ↦
+// ¬clientNoContextTakeover (the side itself is decided by C14.side / C14.side.use).
+func readerTakeover(pa *Path) (bool, bool) {
+	for _, d := range pa.Decisions {
+		if strings.HasPrefix(d.Key, "call:msgReader.flateContextTakeover@") {
+			return d.Val, true
+		}
+	}
+	client, known := pa.Decided("Conn.client")
+	if !known {
+		return false, false
+	}
+	flag := "compressionOptions.clientNoContextTakeover"
+	if client {
+		flag = "compressionOptions.serverNoContextTakeover"
+	}
+	no, known := pa.Decided(flag)
+	return !no, known
+}
+
 func c01dict(p *Program, r *Report, rule string) {
 	if fn := p.Func("msgReader.Read"); fn != nil {
 		p.forAllPaths(r, rule, fn, "delivered bytes enter the dictionary", Opts{},
@@ -256,13 +278,7 @@ func c01dict(p *Program, r *Report, rule string) {
 					return true, ""
 				}
 				fl, k1 := pa.Decided("msgReader.flate")
-				to := false
-				k2 := false
-				for _, d := range pa.Decisions {
-					if strings.HasPrefix(d.Key, "call:msgReader.flateContextTakeover@") {
-						to, k2 = d.Val, true
-					}
-				}
+				to, k2 := readerTakeover(pa)
 				sw := pa.Calls("slidingWindow.write")
 				want := k1 && fl && k2 && to
 				if !want {
@@ -291,6 +307,11 @@ func c01dict(p *Program, r *Report, rule string) {
 				for _, d := range pa.Decisions {
 					if strings.HasPrefix(d.Key, "call:msgReader.flateContextTakeover@") {
 						tos = append(tos, d.Val)
+					}
+				}
+				if len(tos) == 0 {
+					if to, known := readerTakeover(pa); known {
+						tos = append(tos, to)
 					}
 				}
 				gf := pa.Calls("getFlateReader")
